@@ -50,15 +50,22 @@ async fn lib_attempt(addr: &str, ca: &Path, cert: &Path, key: &Path, topic: &str
 /// An impostor takes over the server's address while a client is connected (a UDP relay is re-targeted): the client's
 /// keep-alive layer retries the connection several times against the same, wrongly certified peer. Every one of those
 /// handshakes has to be refused — not only the first.
-async fn impostor_after_reconnect(a: &Certs, b: &Certs, round: usize) -> (String, bool, std::result::Result<(), String>) {
+///
+/// `rotated_ca`: the other direction — the address is taken over by the *same* server identity restarted with another
+/// client CA (a CA rotation): the reconnecting client, certified by the old CA, must be refused like a fresh one.
+async fn impostor_after_reconnect(a: &Certs, b: &Certs, round: usize, rotated_ca: bool) -> (String, bool, std::result::Result<(), String>) {
     use futures::SinkExt;
-    let cell = "lib: client trusting CA-A, connected to server A, loses its connection and finds an impostor (certificate from CA-B, accepts CA-A clients) on the same address; 5 reconnect attempts".to_string();
+    let cell = if rotated_ca {
+        "lib: client certified by CA-A, connected to the server, loses its connection while the server is restarted with the same certificate and key but --ca CA-B; 5 reconnect attempts".to_string()
+    } else {
+        "lib: client trusting CA-A, connected to server A, loses its connection and finds an impostor (certificate from CA-B, accepts CA-A clients) on the same address; 5 reconnect attempts".to_string()
+    };
     let inc = |e: String| (cell.clone(), false, Err(format!("INCONCLUSIVE {}", e)));
     let sa = match start_server(a) {
         Ok(s) => s,
         Err(e) => return inc(format!("server A: {e}")),
     };
-    let imp = match start_server_with(&a.server_ca(), &b.server_cert(), &b.server_key()) {
+    let imp = match if rotated_ca { start_server_with(&b.server_ca(), &a.server_cert(), &a.server_key()) } else { start_server_with(&a.server_ca(), &b.server_cert(), &b.server_key()) } {
         Ok(s) => s,
         Err(e) => return inc(format!("impostor: {e}")),
     };
@@ -68,7 +75,12 @@ async fn impostor_after_reconnect(a: &Certs, b: &Certs, round: usize) -> (String
     };
     let topic = format!("/c15r{}/takeover", round);
     // what reaches the impostor: a raw subscriber connected to it directly
-    let imp_conn = match raw_connect_with(imp.addr, raw_client_config(&read_der(&b.client_ca()).unwrap(), ClientIdentity::Cert(read_der(&a.client_cert()).unwrap(), read_der(&a.client_key()).unwrap())).unwrap()).await {
+    let observer_cfg = if rotated_ca {
+        raw_client_config(&read_der(&a.client_ca()).unwrap(), ClientIdentity::Cert(read_der(&b.client_cert()).unwrap(), read_der(&b.client_key()).unwrap())).unwrap()
+    } else {
+        raw_client_config(&read_der(&b.client_ca()).unwrap(), ClientIdentity::Cert(read_der(&a.client_cert()).unwrap(), read_der(&a.client_key()).unwrap())).unwrap()
+    };
+    let imp_conn = match raw_connect_with(imp.addr, observer_cfg).await {
         Ok(c) => c,
         Err(e) => return inc(format!("connect to the impostor: {e}")),
     };
@@ -347,7 +359,8 @@ pub fn run(rep: &mut StageReport, tier: &str, _seed: u64, exe: &str) {
             v.push(("lib: the file is switched back to CA-A (cert B) → server B".to_string(), false, lib_attempt(&sb.endpoint(), &deployed, &b.client_cert(), &b.client_key(), &t(25)).await));
             v.push(missing_ca_file(exe, &a, &b, round).await);
             if round == 0 {
-                v.push(impostor_after_reconnect(&a, &b, round).await);
+                v.push(impostor_after_reconnect(&a, &b, round, false).await);
+                v.push(impostor_after_reconnect(&a, &b, round, true).await);
             }
             let _ = std::fs::remove_dir_all(&pem_dir);
             sa.stop();
